@@ -173,7 +173,7 @@ pub fn upload(c: &Case, rep: &mut Report) -> Result<&'static str, (String, Strin
 /// Duplicate vectors for an upload of n blocks.
 fn dup_vectors(n: usize, thorough: bool) -> Vec<Vec<u8>> {
     let mut v: Vec<Vec<u8>> = Vec::new();
-    if n <= 4 {
+    if n <= 4 || (thorough && n <= 5) {
         let base: u64 = if thorough { 3 } else { 2 };
         for i in 0..base.pow(n as u32) {
             v.push(decode(i, &vec![base; n]).iter().map(|d| *d as u8 + 1).collect());
@@ -234,9 +234,11 @@ pub fn run(ctx: &Ctx, rep: &mut Report) {
     {
         // flatten (szx, body_len, dup vector) into a table
         let mut table: Vec<(u8, usize, Vec<u8>)> = Vec::new();
-        for szx in [0u8, 1] {
+        let szxs: Vec<u8> = if ctx.thorough() { vec![0, 1, 2] } else { vec![0, 1] };
+        for szx in szxs {
             let bs = rb::size(szx);
-            for len in 0..=3 * bs + 1 {
+            let top = if ctx.thorough() { 4 * bs + 1 } else { 3 * bs + 1 };
+            for len in 0..=top {
                 for dv in dup_vectors(nblocks(len, bs), ctx.thorough()) {
                     table.push((szx, len, dv));
                 }
@@ -253,7 +255,7 @@ pub fn run(ctx: &Ctx, rep: &mut Report) {
         ctx.family(
             rep,
             "U1-every-length-small-blocks",
-            "SZX 0 and 1 x every body length 0..=3*bs+1 x duplicate vectors (every vector over {1,2}(quick) / {1,2,3}(thorough) deliveries per block for <= 4 blocks) x budget {admits the block size with 32 bytes + 0/1/100 to spare, 1152} x abandoned predecessor upload of 0..6 blocks (same or next larger block size, distinct fill); each a complete upload",
+            "SZX 0 and 1 (thorough: 0..2) x every body length 0..=3*bs+1 (thorough: 4*bs+1) x duplicate vectors (every vector over {1,2}(quick) / {1,2,3}(thorough) deliveries per block for <= 4 blocks) x budget {admits the block size with 32 bytes + 0/1/100 to spare, 1152} x abandoned predecessor upload of 0..6 blocks (same or next larger block size, distinct fill); each a complete upload",
             n,
             true,
             |i, rep| {
